@@ -156,7 +156,7 @@ def fix_parens(toks):
             if not content or content[0] not in ('*', '(', '__cdecl', '__stdcall'):
                 continue
             nxt = toks[j + 1] if j + 1 < len(toks) else None
-            if nxt in ('(', '['):
+            if nxt in ('(', '[') and content[0] != '(':
                 continue
             # the content must itself contain a parenthesised sub-declarator,
             # otherwise these are the only parentheses of a pointer declarator
@@ -172,18 +172,21 @@ def fix_parens(toks):
 
 
 def fix_arraylen(toks):
-    """repair 3: array lengths that are parenthesised expressions '[ ( 7 ) ]' -> '[ 7 ]'
-    (the common grammar has literal or named lengths only)"""
-    out = list(toks)
-    changed = True
-    while changed:
-        changed = False
-        for i in range(len(out) - 3):
-            if out[i] == '[' and out[i + 1] == '(' and out[i + 3] == ')' and \
-                    i + 4 < len(out) and out[i + 4] == ']':
-                out = out[:i + 1] + [out[i + 2]] + out[i + 4:]
-                changed = True
-                break
+    """repair 3: an array length that is an expression ('[ ( 7 ) ]', '[ 0XA -1 ]'):
+    the common grammar has a literal or a named constant only"""
+    out, i = [], 0
+    while i < len(toks):
+        out.append(toks[i])
+        if toks[i] == '[':
+            j = i + 1
+            while j < len(toks) and toks[j] != ']':
+                j += 1
+            if j < len(toks) and (j - i - 1 > 1 or (j - i - 1 == 1 and toks[i + 1][0].isdigit()
+                                                    and toks[i + 1][-1] in 'uUlL')):
+                out.append('3')
+                i = j
+                continue
+        i += 1
     return out
 
 
@@ -207,9 +210,44 @@ def undeclared_tag(toks, declared):
     for i, x in enumerate(toks[:-1]):
         if x in ('struct', 'union', 'enum'):
             y = toks[i + 1]
-            if (y[0].isalpha() or y[0] == '_') and (x, y) not in declared:
+            if (y[0].isalpha() or y[0] in '_$') and (x, y) not in declared:
                 return True
     return False
+
+
+def make_fix_names(known):
+    """repair 5: a declarator *name* (an identifier that is not a type name of the
+    context, or a parameter name a<N>) - the C parser takes abstract declarators
+    and plain 'type name' parameters only"""
+    import re
+
+    def fix(toks):
+        out = []
+        for i, x in enumerate(toks):
+            if (x[0].isalpha() or x[0] in '_$') and x not in known and x not in SPEC_WORDS \
+                    and x not in QUALS and x not in DELIM and x not in ('struct', 'union', 'enum') \
+                    and not (i > 0 and toks[i - 1] in ('struct', 'union', 'enum')):
+                continue
+            out.append(x)
+        for i in range(len(out) - 2):
+            if out[i] == '(' and out[i + 1] == ')' and out[i + 2] == '(' and i > 0 and \
+                    out[i - 1] not in (')', ']'):
+                out[i:i + 2] = ['(', '*', ')']     # 'T (name)(args)' is 'T (*)(args)'
+                break
+        # '( )' left behind by a parenthesised name
+        changed = True
+        while changed:
+            changed = False
+            for i in range(len(out) - 1):
+                if out[i] == '(' and out[i + 1] == ')' and i > 0 and \
+                        out[i - 1] not in (')', ']') and (i + 2 >= len(out) or out[i + 2] != '('):
+                    # only when it cannot be an empty parameter list
+                    if i > 0 and (out[i - 1][0].isalpha() or out[i - 1] == '*'):
+                        del out[i:i + 2]
+                        changed = True
+                        break
+        return fix_parens(out)
+    return fix
 
 
 def child_case(st, case):
@@ -241,6 +279,9 @@ def child_case(st, case):
         decl_tags = set([('struct', x) for x in nm['structs']] + [('union', x) for x in nm['unions']]
                         + [('enum', x) for x in nm['enums']])
         rep.stat('contexts')
+        known = set(nm['typedefs']) | set(nm['consts']) | set(
+            w for n in TS.NAMED_PRIMS for w in n.split())
+        fix_names = make_fix_names(known)
         for i in range(case['nstr']):
             bare = rnd.random() < 0.15
             gg = g0 if bare else g
@@ -296,17 +337,21 @@ def child_case(st, case):
                 expl = None
                 for name, fn in (('qualifier-between-specifier-words', fix_quals),
                                  ('nested-grouping-parens', fix_parens),
-                                 ('array-length-parenthesised-expression', fix_arraylen),
+                                 ('array-length-expression', fix_arraylen),
                                  ('void-parameter-with-name-or-qualifier', fix_voidparam),
+                                 ('declarator-name-present', fix_names),
+                                 ('calling-convention-position',
+                                  lambda t: [x for x in t if x not in ('__cdecl', '__stdcall')]),
                                  ('qualifier-position+nested-parens',
                                   lambda t: fix_parens(fix_quals(t))),
-                                 ('several-repairs', lambda t: fix_voidparam(fix_arraylen(
-                                     fix_parens(fix_quals(t)))))):
+                                 ('several-repairs', lambda t: fix_names(fix_voidparam(
+                                     fix_arraylen(fix_parens(fix_quals(
+                                         [x for x in t if x not in ('__cdecl', '__stdcall')]))))))):
                     rt = fn(toks)
                     if rt != toks and outcome(TS.join(rt)) in ('AA=',):
                         expl = name
                         break
-                dis.append([seed, s, kind, expl, r1 or repr(t1), r2 or repr(t2)])
+                dis.append([seed, s, kind, expl, r1 or repr(t1), r2 or repr(t2), mutated])
             if bare:
                 # the context-free C parser must agree with the populated one
                 try:
@@ -352,17 +397,29 @@ def finalize(ctx, setup):
         path = os.path.join(ctx.tmp, 'wf_%d.c' % seed)
         with open(path, 'w') as f:
             f.write('\n'.join(lines) + '\n')
-        r = subprocess.run(['gcc', '-fsyntax-only', '-std=gnu11', '-pedantic-errors',
+        r = subprocess.run(['gcc', '-fsyntax-only', '-std=gnu11',
                             '-Werror=implicit-int', path], stdout=subprocess.PIPE, stderr=subprocess.PIPE, timeout=300)
         badlines = set(int(m.group(1)) for m in
                        re.finditer(r':(\d+):\d+: error', r.stderr.decode(errors='replace')))
         if any(b <= base for b in badlines):
             ctx.inconclusive('gcc rejects the context declarations of seed %d' % seed)
             continue
-        for i, (sd, s, kind, expl, r1, r2) in enumerate(ds):
+        for i, (sd, s, kind, expl, r1, r2, mutated) in enumerate(ds):
             wellformed = (base + i + 1) not in badlines
+            # gcc's attribute syntax is laxer than the calling-convention
+            # keywords: they are only well-formed directly in front of '*'
+            ncc = len(re.findall(r'__(?:stdcall|cdecl)', s))
+            if ncc != len(re.findall(r'\(\s*__(?:stdcall|cdecl)\s*\*', s)):
+                wellformed = False
             ctx.count('disagreements_wellformed' if wellformed else 'disagreements_illformed')
-            if not wellformed:
+            kname = {'AR': 'accepted-by-inline-parser-only', 'RA': 'accepted-by-c-parser-only',
+                     'AA': 'different-meaning'}[kind]
+            if mutated and (not wellformed or expl is None):
+                # token-level mutants: the two parsers differ in leniency on
+                # strings outside the generated grammar (recorded finding)
+                mech = 'near-miss-string:%s:%s' % ('well-formed-c' if wellformed else 'ill-formed-c',
+                                                   kname)
+            elif not wellformed:
                 mech = 'ill-formed-string:' + {'AR': 'accepted-by-inline-parser-only',
                                                'RA': 'accepted-by-c-parser-only',
                                                'AA': 'different-meaning'}[kind]
